@@ -762,3 +762,63 @@ Proof.
   exists har_sanitized, [CScenario [i_user 1]; CScenario [i_plain 2]], 2.
   destruct once_refuted_har as [H1 H2]. rewrite H1, H2. repeat split; [right; left; reflexivity | intros []].
 Qed.
+
+(* ------------------------------------------------------------------ *)
+(* Part 4: entries are pointwise                                       *)
+(* ------------------------------------------------------------------ *)
+Lemma har_step_entry p v x : snd (har_step p v x) = har_entry p x.
+Proof.
+  unfold har_step, har_entry. destruct x as [id [m u hs b] r cs]. cbn.
+  destruct b as [b|]; destruct r as [r|]; reflexivity.
+Qed.
+
+Lemma har_loop_pointwise p xs : forall v, har_loop p v xs = map (har_entry p) xs.
+Proof.
+  induction xs as [|x xs IH]; intros v; [reflexivity|].
+  cbn [har_loop map]. pose proof (har_step_entry p v x) as H.
+  destruct (har_step p v x) as [v1 e]. cbn [snd] in H. subst e. rewrite IH. reflexivity.
+Qed.
+
+Lemma vcr_step_entry p v x : snd (vcr_step p v x) = vcr_entry p x.
+Proof. unfold vcr_entry, vcr_step. destruct (x_resp x); [destruct (x_checks x)|]; reflexivity. Qed.
+
+Lemma vcr_loop_pointwise p xs : forall v, vcr_loop p v xs = map (vcr_entry p) xs.
+Proof.
+  induction xs as [|x xs IH]; intros v; [reflexivity|].
+  cbn [vcr_loop map]. pose proof (vcr_step_entry p v x) as H.
+  destruct (vcr_step p v x) as [v1 e]. cbn [snd] in H. subst e. rewrite IH. reflexivity.
+Qed.
+
+Lemma entries_pointwise p hv vv xs :
+  har_loop p hv xs = map (har_entry p) xs /\ vcr_loop p vv xs = map (vcr_entry p) xs.
+Proof. split; [apply har_loop_pointwise | apply vcr_loop_pointwise]. Qed.
+
+Lemma nth_error_map_mid {A B} (f : A -> B) pre x post :
+  nth_error (map f (pre ++ x :: post)) (length pre) = Some (f x).
+Proof. induction pre as [|a pre IH]; [reflexivity | exact IH]. Qed.
+
+(* entry number i is a function of interaction number i: whatever came before or comes after *)
+Lemma entry_independent_of_history p hv vv pre x post :
+  nth_error (har_loop p hv (pre ++ x :: post)) (length pre) = Some (har_entry p x)
+  /\ nth_error (vcr_loop p vv (pre ++ x :: post)) (length pre) = Some (vcr_entry p x).
+Proof.
+  rewrite har_loop_pointwise, vcr_loop_pointwise. split; apply nth_error_map_mid.
+Qed.
+
+(* a request without a body has no postData / no body key, a network error has no response *)
+Lemma bodyless_has_no_post p x : q_body (x_req x) = None ->
+  he_post (har_entry p x) = None /\ ve_body (vcr_entry p x) = None.
+Proof. intros H. unfold har_entry, vcr_entry, vcr_step, vcr_req_body. cbn. rewrite H. split; reflexivity. Qed.
+
+(* non-vacuity: POST with a body, then GET without: the second entry carries nothing of the first *)
+Definition x_post : xchg :=
+  {| x_id := 1; x_req := {| q_method := [112;111;115;116]; q_uri := [47;105]; q_headers := [(s_content_type, [[106]])]; q_body := Some [123;125] |};
+     x_resp := Some {| p_status := 201; p_message := [79;75]; p_headers := []; p_content := [123;125]; p_encoding := None; p_version := [49;46;49] |};
+     x_checks := Some [([97], false); ([98], true)] |}.
+Definition x_get : xchg :=
+  {| x_id := 2; x_req := {| q_method := [71;69;84]; q_uri := [47;105]; q_headers := []; q_body := None |}; x_resp := None; x_checks := None |}.
+Example pointwise_nonvacuous :
+  map he_post (har_loop false hvars0 [x_post; x_get; x_post]) = [Some ([106], Utf8Replace [123;125]); None; Some ([106], Utf8Replace [123;125])]
+  /\ map ve_status (vcr_loop true vvars0 [x_post; x_get]) = [VFailure; VError]
+  /\ map he_method (har_loop false hvars0 [x_post]) = [[80;79;83;84]].
+Proof. repeat split. Qed.
